@@ -171,7 +171,7 @@ def relocate_stream(rng, pid, kinds=ALL_KINDS):
     return out
 
 
-def reenter_stream(rng, pid):
+def reenter_stream(rng, pid, skip=False):
     """re-entrancy: the wrapped iterator's own `next()` asks the concurrent iterator around it how much is left (`has_more`,
     `try_get_len`) -- at its k-th call, from whichever thread is inside. Implementation only (the model has no nested operation)"""
     out = []
@@ -184,7 +184,9 @@ def reenter_stream(rng, pid):
                 for pr in progs:
                     c = make_source(rng, "%s-re%d" % (pid, i), kind, L, hint=rng.choice(["exact", "exact", "inexact"]))
                     c.threads = [list(t) for t in pr]
-                    c.reenter = k
+                    # `skip`: the same `next()` also calls `skip_to_end` (only where the monitors make no assumption about skips:
+                    # the skip is not an operation of the case)
+                    c.reenter = "%d:skip" % k if (skip and i % 2 == 0) else k
                     c.owner = "intoseq all"
                     if len(pr) > 1:
                         c.sched = rand_sched(rng, 2, 12)
@@ -956,7 +958,7 @@ def stream_for0(pid, tier, seed):
             for b in bases:
                 b.script = b.script[:k] + ["P"] + b.script[k:]
             cases += exhaustive("C09-px%d" % k, bases, 2, 7 if not big else 10)
-        cases += huge_chunk_stream(rng, pid) + wrapper_droppanic_stream(rng, pid) + inpanic_stream(rng, pid) + stall_stream(rng, pid)
+        cases += huge_chunk_stream(rng, pid) + wrapper_droppanic_stream(rng, pid) + inpanic_stream(rng, pid) + stall_stream(rng, pid) + reenter_stream(rng, pid, skip=True)
         return cases
     if pid == "C10":
         return defects + pulls_stream(rng, tier, pid, prof=dict(skip=True, owners=["intoseq all", "intoseq 1", "intoseq 2", "intoseq 0"]), exh=False, n_random=2000 if not big else 80000) + liar_stream(rng, pid) + zst_stream(rng, pid) + \
